@@ -123,6 +123,12 @@ def oracle(ctx, case, run, edges):
                     'transitioning is %s (outcome of the completion: %s)' % (i, o['st'], o['tr'], o['out']))
         if o['active'] != (o['st'] == 'running' and o['tr'] == 'active'):
             return ('active-predicate', {}, 'is_pipeline_active() = %s in %s/%s' % (o['active'], o['st'], o['tr']))
+        if o['active'] and o['pending']:
+            # "declares itself active only when at rest in running": not while a
+            # background step is queued or executing
+            return ('active-while-outstanding', {'state': o['st']},
+                    'event %d %s: is_pipeline_active() is True while the background step(s) %s are outstanding'
+                    % (i, ev, o['pending']))
         prev = o
     if FC.is_env_case(case) and run:
         last = run[-1]
